@@ -23,7 +23,7 @@ func runChild(t *testing.T) {
 	rc := &RunCtx{Property: "C03", Tier: "quick", Seed: seed, Ch: NewSeedChoice(seed), Stats: NewStats(), Params: map[string]string{}}
 	pop := StdPopulation(t)
 	s := NewSched(rc, SchedCfg{})
-	inst, err := NewInstance(s, "child", InstCfg{Dir: dir, Pop: pop, Permissions: FullPermissions("client1")})
+	inst, err := NewInstance(s, "child", InstCfg{Dir: dir, Pop: pop, Permissions: FullPermissions("client1"), PeriodicPruning: os.Getenv("VERIF_CHILD_PRUNING") == "1"})
 	if err != nil {
 		fmt.Fprintf(os.Stderr, "child: open: %v\n", err)
 		os.Exit(4)
@@ -31,6 +31,22 @@ func runChild(t *testing.T) {
 	ledger := NewLedger()
 	g := &histGen{rc: rc, ledger: ledger, pop: pop, nKeys: 1 + rc.Ch.Pick(3, 0)}
 	say := func(line string) { _, _ = os.Stdout.Write([]byte(line + "\n")) }
+	// A later incarnation on the same directory is told what its predecessors released, so that its
+	// workload continues the history instead of being refused throughout.
+	if prior := os.Getenv("VERIF_CHILD_PRIOR"); prior != "" {
+		b, _ := os.ReadFile(prior)
+		rel, _ := parseReleased(string(b))
+		for i, r := range rel {
+			kn := pop.Accts[r.acct].KName
+			if r.kind == "prop" {
+				e := PropEntry(r.acct, r.a, uint64(1<<41)+uint64(i))
+				ledger.AddProp(rc, kn, &e, -1, false)
+			} else {
+				e := AttEntry(r.acct, r.a, r.b, uint64(1<<41)+uint64(i))
+				ledger.AddAtt(rc, kn, &e, -1)
+			}
+		}
+	}
 	say("START")
 	for i := 0; i < nOps; i++ {
 		var o *Op
